@@ -248,6 +248,9 @@ def check(F, run, tier):
     run.add(clm_accounting(F, S))
     run.add(audio_extent(F, S))
     run.add(format_preserved(F, S))
+    from ..rules_archive import extraction_always_writes
+    ef = F.fn(CLM + "::ExtractFile", nparams=2, pred=lambda f: "basic_string" not in f.key.split("(")[1].split(",")[0])
+    run.add(extraction_always_writes(F, ef, CLM + "::ExtractFile"))
     obs, n = c05.member_extents(F, S)
     run.add([o for o in obs if "ClmFile" in o.instance])
     run.add(refusals_before_write(F, S))
